@@ -188,7 +188,7 @@ def shrink_c09(scn, viol, test):
                 scn = c
     # 6. knobs to defaults
     for wi in range(len(scn["worlds"])):
-        for knob, default in (("io", {"chunk": "full"}), ("env", {"LC_ALL": None, "opt": ""}), ("io_seed", 0), ("default_ctor", False)):
+        for knob, default in (("io", {"chunk": "full"}), ("env", {"LC_ALL": None, "opt": ""}), ("io_seed", 0), ("env_seed", 0), ("default_ctor", False)):
             if scn["worlds"][wi].get(knob) != default:
                 c = copy.deepcopy(scn)
                 c["worlds"][wi][knob] = default
@@ -229,7 +229,7 @@ def shrink_c18(scn, viol, test):
 
     scn = with_ops(dd(ops, with_ops, test))
     scn = shrink_layout(scn, test, lambda s: s["layout"], lambda s, l: s.__setitem__("layout", l))
-    for knob, default in (("io", {"chunk": "full"}), ("env", {"LC_ALL": None, "opt": ""}), ("enum_seed", 0), ("io_seed", 0), ("hashseed", 0)):
+    for knob, default in (("io", {"chunk": "full"}), ("env", {"LC_ALL": None, "opt": ""}), ("enum_seed", 0), ("io_seed", 0), ("env_seed", 0), ("hashseed", 0)):
         if scn["worlds"][0].get(knob) != default:
             c = copy.deepcopy(scn)
             c["worlds"][0][knob] = default
@@ -297,7 +297,7 @@ def shrink_c20(scn, viol, test):
                     c["worlds"][0]["runs"][ri][knob] = default
                 if test(c):
                     scn = c
-    for knob, default in (("io", {"chunk": "full"}), ("env", {"LC_ALL": None, "opt": ""}), ("enum_seed", 0), ("io_seed", 0), ("hashseed", 0)):
+    for knob, default in (("io", {"chunk": "full"}), ("env", {"LC_ALL": None, "opt": ""}), ("enum_seed", 0), ("io_seed", 0), ("env_seed", 0), ("hashseed", 0)):
         if scn["worlds"][0].get(knob) != default:
             c = copy.deepcopy(scn)
             c["worlds"][0][knob] = default
